@@ -59,10 +59,11 @@ UNOPS = {ast.USub: "__neg__", ast.UAdd: "__pos__", ast.Invert: "__invert__"}
 # Numeric-kernel type facts (assumption A4): the value is what the kernel's
 # geometry says, which the type domain cannot see.  Keyed by (function, local).
 KERNEL_TYPE_FACTS = {
-    ("inter_plane_plane", "line_p"): (
+    # (function, callee whose result is assigned to a local): the local's type
+    ("inter_plane_plane", "inter_line_plane"): (
         "Point",
-        "aux_line lies in plane a, is orthogonal to the common direction and a is not parallel to b on this "
-        "path, so it meets b in exactly one point",
+        "the auxiliary line lies in plane a, is orthogonal to the common direction and a is not parallel to b on "
+        "this path, so it meets b in exactly one point",
     ),
 }
 
@@ -164,13 +165,14 @@ class Summary:
 
 
 class Env:
-    __slots__ = ("vars",)
+    __slots__ = ("vars", "consts")
 
-    def __init__(self, vars=None):
+    def __init__(self, vars=None, consts=None):
         self.vars: Dict[str, FrozenSet] = dict(vars or {})
+        self.consts: Dict[str, object] = dict(consts or {})  # locals with a known constant value (e.g. n = len(args))
 
     def copy(self):
-        return Env(self.vars)
+        return Env(self.vars, self.consts)
 
     def get(self, k):
         return self.vars.get(k)
@@ -187,13 +189,19 @@ def join_env(a: Optional[Env], b: Optional[Env]) -> Optional[Env]:
     out = {}
     for k in set(a.vars) | set(b.vars):
         out[k] = norm(a.vars.get(k, BOT) | b.vars.get(k, BOT))
-    return Env(out)
+    consts = {k: v for k, v in a.consts.items() if k in b.consts and b.consts[k] == v}
+    return Env(out, consts)
 
 
 class TypeEngine:
     MAX_SPLIT = 64
 
+    _rebound: Dict[str, Set[str]] = {}
+    pout: Dict[Tuple[str, str], FrozenSet] = {}
+
     def __init__(self, repo: Repo):
+        self._rebound = {}
+        self.pout = {}
         self.repo = repo
         self.fields: Dict[Tuple[str, str], FrozenSet] = {}
         self.memo: Dict[Tuple[str, tuple], Summary] = {}
@@ -221,6 +229,31 @@ class TypeEngine:
         self._stack: List = []
 
     # ------------------------------------------------------------------ driver
+    def note_pout(self, fi: FunctionInfo, env: "Env"):
+        """at a normal exit of a plain function: element types its container parameters have acquired (out-parameters
+        filled with .add / .append); joined over all contexts"""
+        if fi.cls is not None:
+            return
+        if not hasattr(self, "pout"):
+            self.pout = {}
+        rebound = self._rebound.get(fi.qual)
+        if rebound is None:
+            from .astutil import assigned_names
+            rebound = self._rebound[fi.qual] = set(assigned_names(fi.node))
+        for p in fi.params:
+            if p in rebound:
+                continue
+            v = env.get(p)
+            if not v:
+                continue
+            cont = FS(t for t in v if isinstance(t, tuple) and t[0] in ("set", "list") and t[1])
+            if not cont:
+                continue
+            old = self.pout.get((fi.qual, p), BOT)
+            if not cont <= old:
+                self.pout[(fi.qual, p)] = old | cont
+                self.changed = True
+
     def solve(self, entries: List[Tuple[FunctionInfo, tuple]], max_iter: int = 25):
         for it in range(max_iter):
             self.changed = False
@@ -473,6 +506,7 @@ class Frame:
             return
         out = self.block(self.fi.node.body, env)
         if out is not None:
+            self.eng.note_pout(self.fi, out)
             if not self.sm.normal:
                 self.sm.normal = True
                 self.eng.changed = True
@@ -498,7 +532,10 @@ class Frame:
             v = self.ev(s.value, env) if s.value is not None else NONE
             if self.fi.short not in STUBS:
                 self._update_ret(v)
-            if not self.sm.normal:
+            if v or s.value is None:
+                self.eng.note_pout(self.fi, env)
+            if (v or s.value is None) and not self.sm.normal:
+                # a `return f(...)` whose callee never returns (raises on every path / diverges) is not a normal exit
                 self.sm.normal = True
                 self.eng.changed = True
             return None
@@ -514,7 +551,7 @@ class Frame:
             env = env.copy()
             for t in s.targets:
                 self.assign(t, v, env, s.value)
-            return env
+            return self._post_call(s.value, env)
         if isinstance(s, ast.AnnAssign):
             if s.value is not None:
                 v = self.ev(s.value, env)
@@ -618,8 +655,39 @@ class Frame:
         self.anomaly(s, "unmodelled statement %s" % type(s).__name__)
         raise AnalysisError("%s: unmodelled statement kind %s" % (self.fi.where(s), type(s).__name__))
 
+    def _post_call(self, e, env: Env) -> Env:
+        """out-parameters: a plain function that fills a container handed to it"""
+        if not (isinstance(e, ast.Call) and isinstance(e.func, ast.Name)):
+            return env
+        for q in self.eng.call_targets.get((self.fi.qual, id(e)), ()):
+            fi = self.eng.fn_by_qual.get(q)
+            if fi is None or fi.cls is not None:
+                continue
+            for i, a in enumerate(e.args):
+                if not isinstance(a, ast.Name) or i >= len(fi.params):
+                    continue
+                po = self.eng.pout.get((q, fi.params[i]))
+                cur = env.get(a.id)
+                if not po or not cur:
+                    continue
+                new = set()
+                for t in cur:
+                    if isinstance(t, tuple) and t[0] in ("set", "list"):
+                        add = BOT
+                        for u in po:
+                            if u[0] == t[0]:
+                                add = add | u[1]
+                        new.add((t[0], t[1] | add))
+                    else:
+                        new.add(t)
+                if FS(new) != cur:
+                    env = env.copy()
+                    self.assign(a, FS(new), env, None, weak=True)
+        return env
+
     def _post_expr(self, e, env: Env) -> Env:
         """Container mutation through a method call statement: x.add(v) etc."""
+        env = self._post_call(e, env)
         if isinstance(e, ast.Call) and isinstance(e.func, ast.Attribute) and e.func.attr in CONTAINER_MUT:
             recv = e.func.value
             rv = self.ev(recv, env)
@@ -646,11 +714,20 @@ class Frame:
 
     def assign(self, t, v: FrozenSet, env: Env, value_node, weak=False):
         if isinstance(t, ast.Name):
-            kf = KERNEL_TYPE_FACTS.get((self.fi.short, t.id))
-            if kf is not None and value_node is not None:
+            kf = None
+            if value_node is not None and isinstance(value_node, ast.Call):
+                cn = value_node.func.id if isinstance(value_node.func, ast.Name) else (
+                    value_node.func.attr if isinstance(value_node.func, ast.Attribute) else None)
+                kf = KERNEL_TYPE_FACTS.get((self.fi.short, cn))
+            if kf is not None:
                 self.eng.kernel_fact_uses.add((self.fi.short, t.id))
                 v = FS(x for x in v if x == kf[0])
             env.set(t.id, v)
+            env.consts.pop(t.id, None)
+            if value_node is not None:
+                cv = self.const_eval(value_node, env)
+                if cv is not None:
+                    env.consts[t.id] = cv[0]
             self.record(t, v)
             return
         if isinstance(t, (ast.Tuple, ast.List)):
@@ -783,6 +860,10 @@ class Frame:
             if a is not None and b is not None:
                 op = test.ops[0]
                 try:
+                    if isinstance(op, ast.In) and isinstance(b[0], tuple):
+                        return a[0] in b[0]
+                    if isinstance(op, ast.NotIn) and isinstance(b[0], tuple):
+                        return a[0] not in b[0]
                     if isinstance(op, ast.Eq):
                         return a[0] == b[0]
                     if isinstance(op, ast.NotEq):
@@ -804,6 +885,24 @@ class Frame:
         type set is one class (e.g. other.class_level), or a literal."""
         if isinstance(e, ast.Constant) and isinstance(e.value, (int, float)) and not isinstance(e.value, bool):
             return (e.value,)
+        if isinstance(e, ast.Name) and e.id in env.consts:
+            return (env.consts[e.id],)
+        if isinstance(e, ast.Call) and isinstance(e.func, ast.Name) and e.func.id == "len" and len(e.args) == 1 and not e.keywords:
+            v = self.ev(e.args[0], env)
+            lens = set()
+            for t in v:
+                if isinstance(t, tuple) and t[0] == "ftuple":
+                    lens.add(len(t[1]))
+                else:
+                    return None
+            if len(lens) == 1:
+                return (lens.pop(),)
+            return None
+        if isinstance(e, (ast.Tuple, ast.List)):
+            vals = [self.const_eval(x, env) for x in e.elts]
+            if all(v is not None for v in vals):
+                return (tuple(v[0] for v in vals),)
+            return None
         if isinstance(e, ast.Attribute):
             base = self.ev(e.value, env)
             vals = set()
@@ -1040,8 +1139,9 @@ class Frame:
             return self.compare(e, env)
         if isinstance(e, ast.IfExp):
             self.ev(e.test, env)
-            a = self.narrow(e.test, env, True)
-            b = self.narrow(e.test, env, False)
+            fz = self.fold(e.test, env)
+            a = self.narrow(e.test, env, True) if fz is not False else None
+            b = self.narrow(e.test, env, False) if fz is not True else None
             out = BOT
             if a is not None:
                 out |= self.ev(e.body, a)
